@@ -42,7 +42,14 @@ pub fn close_flow(
         return Err(ContractError::UnauthorizedFlowClose { flow_identifier });
     }
 
-    let amount_to_return = flow.flow_asset.amount.saturating_sub(flow.claimed_amount);
+    // the total amount the flow was funded with is the latest entry of the asset history if the
+    // flow was expanded, the original flow asset amount otherwise
+    let total_flow_amount = flow
+        .asset_history
+        .last_key_value()
+        .map(|(_, (expanded_amount, _))| *expanded_amount)
+        .unwrap_or(flow.flow_asset.amount);
+    let amount_to_return = total_flow_amount.saturating_sub(flow.claimed_amount);
 
     // return the flow assets available, i.e. the ones that haven't been claimed
     let messages: Vec<CosmosMsg> = vec![match flow.flow_asset.info {
